@@ -1508,6 +1508,16 @@ func boundedByMaxTTL(c *Ctx, at ssa.Instruction, v ssa.Value, depth int) (bool, 
 	}
 	conds, truth := domFacts(at.Block())
 	for i, cd := range conds {
+		// a predicate helper of the module (isProbedTTL(v)) on its true edge: every path on which it answers true bounds v
+		if call, ok := cd.(*ssa.Call); ok && truth[i] {
+			if g := call.Common().StaticCallee(); g != nil && core.InModule(g) && !call.Common().IsInvoke() {
+				for j, a := range call.Common().Args {
+					if stripWiden(a) == v && j < len(g.Params) && predicateBoundsByMaxTTL(c, g, j) {
+						return true, "the index is bounded by MaxTTL by the predicate " + core.FuncName(g) + " on a dominating branch of " + core.FuncName(at.Parent())
+					}
+				}
+			}
+		}
 		bo, ok := cd.(*ssa.BinOp)
 		if !ok {
 			continue
@@ -1556,6 +1566,59 @@ func boundedByMaxTTL(c *Ctx, at ssa.Instruction, v ssa.Value, depth int) (bool, 
 		}
 	}
 	return false, ""
+}
+
+// predicateBoundsByMaxTTL: on every path on which the boolean module function g does not answer false, its parameter #j is
+// compared against a MaxTTL field in a way that excludes param > MaxTTL.
+func predicateBoundsByMaxTTL(c *Ctx, g *ssa.Function, j int) bool {
+	if g.Signature.Results().Len() != 1 || len(g.Blocks) == 0 {
+		return false
+	}
+	if bt, ok := g.Signature.Results().At(0).Type().Underlying().(*types.Basic); !ok || bt.Kind() != types.Bool {
+		return false
+	}
+	rps, ok := core.ReturnPaths(c.P, g, 500)
+	if !ok {
+		return false
+	}
+	pname := g.Params[j].Name()
+	isP := func(t *core.Term) bool { t = t.StripConv(); return t.Op == "param" && t.Name == pname }
+	isMax := func(t *core.Term) bool { t = t.StripConv(); return t.Op == "field" && t.Name == "MaxTTL" }
+	isBound := func(t *core.Term, sign bool) bool {
+		if t.Op != "binop" || len(t.Args) != 2 {
+			return false
+		}
+		l, r := t.Args[0], t.Args[1]
+		switch {
+		case isP(l) && isMax(r):
+			return t.Name == "<=" && sign || t.Name == ">" && !sign
+		case isMax(l) && isP(r):
+			return t.Name == ">=" && sign || t.Name == "<" && !sign
+		}
+		return false
+	}
+	n := 0
+	for _, rp := range rps {
+		r := rp.Results[0]
+		if r.IsConst("false") {
+			continue
+		}
+		n++
+		okp := isBound(r, true)
+		if r.Op == "not" && len(r.Args) == 1 && isBound(r.Args[0], false) {
+			okp = true
+		}
+		for _, a := range rp.Atoms {
+			nn := a.Norm()
+			if isBound(nn.Cond, nn.Sign) {
+				okp = true
+			}
+		}
+		if !okp {
+			return false
+		}
+	}
+	return n > 0
 }
 
 // checkFixedWidthReads is R09.3(e): binary.BigEndian/LittleEndian.UintNN(b) panics when len(b) < NN/8, and after inlining the
